@@ -363,7 +363,8 @@ def main(argv):
     if '--tier' in argv:
         tier = argv[argv.index('--tier') + 1]
     st._tier = tier if tier in ('quick', 'thorough') else 'quick'
-    return run_check('C14', [st], argv, trusted_base=TRUSTED, assumptions=ASSUME)
+    return run_check('C14', [st], argv, trusted_base=TRUSTED, assumptions=ASSUME,
+                     translated=('memory', 'guard'))
 
 
 if __name__ == '__main__':
